@@ -3,7 +3,7 @@ import ast
 import copy
 from fractions import Fraction
 
-from ..pm import AnalysisError, norm_src
+from ..pm import AnalysisError, norm_src, canon_node
 from ..flow import CFG, attr_chain
 from ..astutil import parents, replace_node, call_name
 from ..e6_algebra import Poly, Rat, to_rat, NotScalarArithmetic, compare_normal
@@ -422,7 +422,37 @@ def reallocation(ctx, unit, f, b, table, site):
             okarms = False
             ctx.violation("C08-b", unit.relpath, "compute_all_splits", norm_src(st) + " ; " + norm_src(ks),
                           "the reallocation pairs a tracked gain with the cluster id of another tracker", line=st.lineno, site=site)
-    # the chosen pair must be the best admissible pair: when the two tops coincide, compare the two mixed sums
+    # the chosen pair must be the best admissible pair: when the two tops coincide, the two mixed sums are compared and the larger one
+    # is taken (a greedy choice on the top gains alone can pick the smaller sum)
+    def _direct(blk):
+        return [s_ for s_ in blk if isinstance(s_, ast.Assign) and isinstance(s_.targets[0], ast.Name) and s_.targets[0].id == "refurbish"]
+    for node in ast.walk(f):
+        if not (isinstance(node, ast.If) and node.orelse):
+            continue
+        b_, e_ = _direct(node.body), _direct(node.orelse)
+        if len(b_) != 1 or len(e_) != 1:
+            continue
+        psite = "compute_all_splits: choice between the two mixed reallocation pairs"
+        try:
+            sb, se = to_rat(b_[0].value), to_rat(e_[0].value)
+            d_, op_ = compare_normal(canon_node(node.test))
+        except NotScalarArithmetic:
+            ctx.unrecognised("C08-d", psite, f"the test `{norm_src(node.test)[:80]}` is not a comparison of scalar gains")
+            continue
+        from ..e6_algebra import _pos_scaled_equal
+        one = Poly.const(1)
+        if d_.d != one or sb.d != one or se.d != one:
+            ctx.unrecognised("C08-d", psite, "the compared quantities are not polynomial")
+        elif op_ in (">", ">=") and _pos_scaled_equal(d_.n, (sb - se).n):
+            ctx.ok("C08-d", psite, f"`{norm_src(b_[0].value)}` is taken iff it is the larger sum")
+        elif op_ in (">", ">=") and _pos_scaled_equal(d_.n, (se - sb).n):
+            okarms = False
+            ctx.violation("C08-d", unit.relpath, "compute_all_splits", norm_src(node.test), "the smaller of the two mixed sums is selected", line=node.lineno, site=psite)
+        else:
+            okarms = False
+            ctx.violation("C08-d", unit.relpath, "compute_all_splits", norm_src(node.test),
+                          f"when both children favour the same cluster the best pair is the larger of `{norm_src(b_[0].value)}` and `{norm_src(e_[0].value)}`; "
+                          f"the test `{norm_src(node.test)}` does not compare these two sums, so a smaller total gain can be selected", line=node.lineno, site=psite)
     if okarms:
         ctx.ok("C08-b", site, "reallocation = tracked left switch + tracked right switch + corrective term (free of the targets)")
 
@@ -502,6 +532,275 @@ def admissibility(ctx, unit, b, site):
         ctx.ok("C08-e", site, f"guards {conj}")
 
 
+
+class _Unrec(Exception):
+    pass
+
+
+def _ieval(node, env):
+    """integer / boolean value of an index expression under a concrete assignment of the loop positions (abstract positions relative
+    to the scanned sample: the code's arrays are never given values)"""
+    if isinstance(node, ast.Constant) and isinstance(node.value, (int, bool)):
+        return node.value
+    if isinstance(node, ast.Name):
+        if node.id in env:
+            return env[node.id]
+        raise _Unrec(f"index expression reads {node.id}")
+    if isinstance(node, ast.UnaryOp) and isinstance(node.op, (ast.USub, ast.Not)):
+        v = _ieval(node.operand, env)
+        return -v if isinstance(node.op, ast.USub) else (not v)
+    if isinstance(node, ast.BinOp) and isinstance(node.op, (ast.Add, ast.Sub, ast.Mult, ast.FloorDiv)):
+        a, b = _ieval(node.left, env), _ieval(node.right, env)
+        return a + b if isinstance(node.op, ast.Add) else a - b if isinstance(node.op, ast.Sub) else a * b if isinstance(node.op, ast.Mult) else a // b
+    if isinstance(node, ast.BoolOp):
+        vals = [_ieval(v, env) for v in node.values]
+        return all(vals) if isinstance(node.op, ast.And) else any(vals)
+    if isinstance(node, ast.Compare):
+        left = _ieval(node.left, env)
+        for op, c in zip(node.ops, node.comparators):
+            right = _ieval(c, env)
+            r = {ast.Lt: left < right, ast.LtE: left <= right, ast.Gt: left > right, ast.GtE: left >= right, ast.Eq: left == right, ast.NotEq: left != right}.get(type(op))
+            if r is None:
+                raise _Unrec(norm_src(node))
+            if not r:
+                return False
+            left = right
+        return True
+    raise _Unrec(f"index expression {norm_src(node)[:60]}")
+
+
+def _range_of(it, env):
+    if not (isinstance(it, ast.Call) and isinstance(it.func, ast.Name) and it.func.id == "range" and 1 <= len(it.args) <= 3 and not it.keywords):
+        raise _Unrec(f"loop over {norm_src(it)[:60]}")
+    return range(*[_ieval(a, env) for a in it.args])
+
+
+ATOM_NAMES = {"xl": "sigma(x, Sl)", "xr": "sigma(x, Sr - x)", "xx": "sigma(x, x)", "xR": "sigma(x, C_k outside the leaf)", "xC": "sigma(x, C_a)"}
+
+
+def _pretty(r):
+    t = str(r)
+    for k_, v_ in ATOM_NAMES.items():
+        t = t.replace(k_, v_)
+    return t[:200]
+
+
+def _sample_accumulation(loop, tvar, x):
+    """for v in range(..): [if ..:] acc += kernel[x, nu[v]]  ->  {acc: coefficient form over sigma(x,Sl), sigma(x,x), sigma(x,Sr-x)}.
+    The index set of each accumulation is classified on the abstract positions before / at / after the scanned sample, for every
+    leaf size 2..6 and every scan position: it must be a union of whole regions."""
+    if not isinstance(loop.target, ast.Name):
+        raise _Unrec("tuple loop target")
+    v = loop.target.id
+    want = {f"kernel[{x}, nu[{v}]]", f"kernel[nu[{v}], {x}]"}
+    coef = {}
+
+    def run_body(stmts, env, hits):
+        for st in stmts:
+            if isinstance(st, ast.If):
+                run_body(st.body if _ieval(st.test, env) else st.orelse, env, hits)
+            elif isinstance(st, ast.AugAssign) and isinstance(st.target, ast.Name) and isinstance(st.op, (ast.Add, ast.Sub)):
+                val = st.value
+                sign = 1 if isinstance(st.op, ast.Add) else -1
+                if isinstance(val, ast.UnaryOp) and isinstance(val.op, ast.USub):
+                    val, sign = val.operand, -sign
+                if norm_src(val) not in want:
+                    raise _Unrec(f"{st.target.id} accumulates {norm_src(st.value)[:60]}")
+                hits.append((st.target.id, sign))
+            elif isinstance(st, ast.Continue):
+                return "continue"
+            elif isinstance(st, ast.Pass):
+                pass
+            else:
+                raise _Unrec(f"statement in the accumulation loop: {norm_src(st)[:60]}")
+        return None
+    for n in range(2, 7):
+        for t in range(0, n - 1):
+            env = {tvar: t, "n_leaf": n}
+            counts = {}
+            for vv in _range_of(loop.iter, env):
+                env[v] = vv
+                hits = []
+                run_body(loop.body, env, hits)
+                reg = "xl" if vv < t else "xx" if vv == t else "xr"
+                if not 0 <= vv < n:
+                    raise _Unrec("the accumulation index leaves the leaf")
+                for acc, sign in hits:
+                    counts.setdefault(acc, {}).setdefault(reg, 0)
+                    counts[acc][reg] += sign
+            sizes = {"xl": t, "xx": 1, "xr": n - 1 - t}
+            for acc in set(counts) | set(coef):
+                for reg, size in sizes.items():
+                    c = counts.get(acc, {}).get(reg, 0)
+                    if size == 0:
+                        continue
+                    if c % size:
+                        raise _Unrec(f"{acc} sums over a part of the samples {ATOM_NAMES[reg]} stands for")
+                    c //= size
+                    prev = coef.setdefault(acc, {}).get(reg)
+                    if prev is not None and prev != c:
+                        raise _Unrec(f"{acc}: the summed index set changes with the position of the scan")
+                    coef[acc][reg] = c
+    return {acc: P(**{r_: c_ for r_, c_ in d.items() if c_}) if any(d.values()) else Rat(Poly.const(0)) for acc, d in coef.items()}
+
+
+def scan_invariant(ctx, unit, fb, sc, qn):
+    """Loop invariant of the threshold scan, by abstract interpretation of the loop body in the kernel-stock domain.  At the head of the
+    iteration for x = nu[t]: Sl = {nu[0..t-1]}, Sr = {nu[t..]}; sl_square = sigma(Sl^2), sr_square = sigma(Sr^2), sl_clusters[a] = sigma(Sl, C_a),
+    sr_clusters[a] = sigma(Sr, C_a).  On EVERY path through the body (to each `continue`, to the evaluation of the candidate, to the end) the
+    stocks must have moved by exactly x's contributions:  +2 sigma(x,Sl) + sigma(x,x),  -2 sigma(x,Sr-x) - sigma(x,x),  +sigma(x,C_a),  -sigma(x,C_a)."""
+    if not isinstance(sc.target, ast.Name):
+        ctx.unrecognised("C08-g", f"{qn}: scan", "tuple target")
+        return
+    tvar = sc.target.id
+    x = f"nu[{tvar}]"
+    # the leaf and its cluster
+    jname = kname = None
+    for n in ast.walk(fb):
+        if isinstance(n, ast.For) and isinstance(n.target, ast.Name) and any(m is sc for m in ast.walk(n)) and norm_src(n.iter) == "leaves_to_explore":
+            jname = n.target.id
+    if jname:
+        for n in ast.walk(fb):
+            if isinstance(n, ast.Assign) and isinstance(n.targets[0], ast.Name) and norm_src(n.value) in (f"np.argmax(Y[:, {jname}])", f"Y[:, {jname}].argmax()", f"np.argmax(Y[:n_clusters, {jname}])"):
+                kname = n.targets[0].id
+    table = {f"kernel[{x}, {x}]": P(xx=1)}
+    if jname:
+        table[f"Lambda[{jname}, {x}]"] = P(xl=1, xx=1, xr=1)
+    if kname:
+        table[f"omega[{kname}, {x}]"] = P(xl=1, xx=1, xr=1, xR=1)
+    # ---- iteration space
+    site = f"{qn}: iteration space of the scan"
+    try:
+        it = sc.iter
+        if not (isinstance(it, ast.Call) and isinstance(it.func, ast.Name) and it.func.id == "range" and 1 <= len(it.args) <= 2 and not it.keywords):
+            raise _Unrec(f"loop over {norm_src(it)[:60]}")
+        lo = to_rat(it.args[0]) if len(it.args) == 2 else Rat(Poly.const(0))
+        hi = to_rat(it.args[-1])
+        if not lo.is_zero():
+            ctx.violation("C08-g", unit.relpath, qn, norm_src(sc.iter), f"the scan starts at position {norm_src(it.args[0])} with the stocks of an empty left part: the samples "
+                          "sorted before that position are never moved into the left stocks, every gain is computed from the stocks of another split", line=sc.lineno, site=site)
+        else:
+            # every admissible position t <= n_leaf - min_leaf - 1 must be visited:  hi - (n_leaf - min_leaf) >= 0 for every min_leaf >= 1
+            d = hi - to_rat(ast.parse("n_leaf - min_leaf", mode="eval").body)
+            lin = d.d == Poly.const(1) and d.n.atoms() <= {"min_leaf"}
+            if not lin:
+                ctx.unrecognised("C08-g", site, f"upper bound {norm_src(it.args[-1])}")
+            else:
+                c1 = d.n.t.get((("min_leaf", 1),), Fraction(0))
+                c0 = d.n.t.get((), Fraction(0))
+                if len([k_ for k_ in d.n.t if k_ not in ((), (("min_leaf", 1),))]) == 0 and c1 >= 0 and c0 + c1 >= 0:
+                    ctx.ok("C08-g", site, f"positions 0 .. {norm_src(it.args[-1])} - 1 cover every admissible cut")
+                else:
+                    ctx.violation("C08-g", unit.relpath, qn, norm_src(sc.iter), f"the scan stops before the last admissible cut (position n_leaf - min_leaf - 1)", line=sc.lineno, site=site)
+    except (_Unrec, NotScalarArithmetic) as e:
+        ctx.unrecognised("C08-g", site, str(e))
+    # ---- paths
+    TR = ("sl_square", "sr_square", "sl_clusters[*]", "sr_clusters[*]")
+    REQ = {"sl_square": P(xl=2, xx=1), "sr_square": Rat(Poly.const(0)) - P(xr=2, xx=1), "sl_clusters[*]": P(xC=1), "sr_clusters[*]": Rat(Poly.const(0)) - P(xC=1)}
+    WHY = {"sl_square": "sigma((Sl+x)^2) - sigma(Sl^2) = 2 sigma(x,Sl) + sigma(x,x)", "sr_square": "sigma((Sr-x)^2) - sigma(Sr^2) = -2 sigma(x,Sr-x) - sigma(x,x)",
+           "sl_clusters[*]": "sigma(Sl+x, C_a) - sigma(Sl, C_a) = sigma(x, C_a)", "sr_clusters[*]": "sigma(Sr-x, C_a) - sigma(Sr, C_a) = -sigma(x, C_a)"}
+
+    def paths(stmts, acc):
+        if not stmts:
+            yield acc + [("end", "end of the loop body", None)]
+            return
+        st, rest = stmts[0], stmts[1:]
+        if isinstance(st, (ast.Continue, ast.Break, ast.Return)):
+            yield acc + [("end", type(st).__name__.lower(), st)]
+            return
+        if isinstance(st, ast.If):
+            yield from paths(list(st.body) + rest, acc + [("assume", st, True)])
+            yield from paths(list(st.orelse) + rest, acc + [("assume", st, False)])
+            return
+        yield from paths(rest, acc + [("stmt", st, None)])
+
+    def interp(path):
+        env = {v_: Rat(Poly.atom("@" + v_)) for v_ in TR}
+        env.update(table)
+        checkpoints = []
+        label = []
+        for kind, node, extra in path:
+            if kind == "assume":
+                label.append(("if " if extra else "if not ") + norm_src(node.test)[:60])
+                continue
+            if kind == "end":
+                checkpoints.append((node if extra is None else f"`{node}`", extra, dict(env)))
+                continue
+            st = node
+            if isinstance(st, ast.Assign) and len(st.targets) == 1 and isinstance(st.targets[0], ast.Name):
+                env[st.targets[0].id] = to_rat(st.value, env)
+            elif isinstance(st, ast.Assign) and len(st.targets) == 1 and isinstance(st.targets[0], ast.Tuple) and isinstance(st.value, ast.Tuple) \
+                    and len(st.targets[0].elts) == len(st.value.elts) and all(isinstance(e_, ast.Name) for e_ in st.targets[0].elts):
+                vals = [to_rat(v_, env) for v_ in st.value.elts]
+                for t_, v_ in zip(st.targets[0].elts, vals):
+                    env[t_.id] = v_
+            elif isinstance(st, ast.AugAssign) and isinstance(st.target, ast.Name) and isinstance(st.op, (ast.Add, ast.Sub)):
+                cur = env.get(st.target.id)
+                if cur is None:
+                    raise _Unrec(f"{st.target.id} is updated before it is bound in the scan")
+                val = to_rat(st.value, env)
+                env[st.target.id] = cur + val if isinstance(st.op, ast.Add) else cur - val
+            elif isinstance(st, ast.For) and norm_src(st.iter) in ("range(n_clusters)", "range(0, n_clusters)") and isinstance(st.target, ast.Name):
+                a = st.target.id
+                env2 = dict(env)
+                env2[f"omega[{a}, {x}]"] = P(xC=1)
+                for s2 in st.body:
+                    tgt = norm_src(s2.target) if isinstance(s2, ast.AugAssign) else None
+                    if tgt in (f"sl_clusters[{a}]", f"sr_clusters[{a}]") and isinstance(s2.op, (ast.Add, ast.Sub)):
+                        key = tgt.replace(f"[{a}]", "[*]")
+                        val = to_rat(s2.value, env2)
+                        env[key] = env[key] + val if isinstance(s2.op, ast.Add) else env[key] - val
+                    else:
+                        raise _Unrec(f"statement in the cluster loop: {norm_src(s2)[:60]}")
+            elif isinstance(st, ast.For):
+                for acc_, form in _sample_accumulation(st, tvar, x).items():
+                    if acc_ not in env:
+                        raise _Unrec(f"{acc_} is accumulated before it is reset in the scan")
+                    env[acc_] = env[acc_] + form
+            elif isinstance(st, ast.Expr) and isinstance(st.value, ast.Call) and (call_name(st.value) or "").endswith("compute_all_splits"):
+                checkpoints.append(("evaluation of the candidate", st, dict(env)))
+            elif isinstance(st, ast.Pass) or (isinstance(st, ast.Expr) and isinstance(st.value, ast.Constant)):
+                pass
+            else:
+                raise _Unrec(f"statement in the scan: {norm_src(st)[:70]}")
+        return " and ".join(label) or "straight", checkpoints
+
+    seen = set()
+    n_paths = 0
+    for path in paths(list(sc.body), []):
+        n_paths += 1
+        if n_paths > 64:
+            ctx.unrecognised("C08-g", f"{qn}: scan", "more than 64 paths through the scan body")
+            break
+        try:
+            label, cps = interp(path)
+        except (_Unrec, NotScalarArithmetic, ZeroDivisionError) as e:
+            ctx.unrecognised("C08-g", f"{qn}: stocks along the scan", str(e))
+            return
+        for what, node, env in cps:
+            for var in TR:
+                site = f"{qn}: {var} at the {what} [{label}]"
+                if site in seen:
+                    continue
+                seen.add(site)
+                delta = env[var] - Rat(Poly.atom("@" + var))
+                extra_atoms = [a_ for a_ in delta.atoms() if a_ not in ATOM_NAMES]
+                foreign = [a_ for a_ in extra_atoms if a_.split("[")[0] in ("kernel", "Lambda", "omega", "gamma")]
+                if foreign:
+                    ln = node.lineno if node is not None else sc.lineno
+                    ctx.violation("C08-g", unit.relpath, qn, f"{var} on the path [{label}] to the {what}",
+                                  f"{var} is moved by {foreign[0]}, which is not a stock of the scanned sample x = {x} ({WHY[var]} is required)", line=ln, site=site)
+                elif extra_atoms:
+                    ctx.unrecognised("C08-g", site, f"the update reads {extra_atoms[:3]}: no stock meaning known")
+                elif delta.equals(REQ[var]):
+                    ctx.ok("C08-g", site, WHY[var])
+                else:
+                    ln = node.lineno if node is not None else sc.lineno
+                    ctx.violation("C08-g", unit.relpath, qn, f"{var} on the path [{label}] to the {what}",
+                                  f"{var} has moved by {_pretty(delta)} when the scan reaches the {what}; the stocks of the candidate split require {WHY[var]} "
+                                  f"(off by {_pretty(delta - REQ[var])})", line=ln, site=site)
+
+
 def incremental_stocks(pm, ctx, unit, fb):
     """loop invariant of the threshold scan: after the update for the sample x = nu[l_split] the running stocks are those of
     Sl = {nu[0..l_split]} and Sr = the rest.  By bilinearity  sigma((Sl+x)^2) - sigma(Sl^2) = 2 sigma(x,Sl) + sigma(x,x)  and
@@ -514,98 +813,7 @@ def incremental_stocks(pm, ctx, unit, fb):
         ctx.unrecognised("C08-g", f"{qn}: scan", "no single loop over l_split")
         return
     sc = scans[0]
-    x = "nu[l_split]"
-    # ---- alpha / beta: sigma(x, Sl_old) and sigma(x, Sr_old - x)
-    inner = [n for n in sc.body if isinstance(n, ast.For) and norm_src(n.target) == "l_prime"]
-    reset = [s_ for s_ in sc.body if isinstance(s_, ast.Assign) and "alpha" in norm_src(s_.targets[0]) and "beta" in norm_src(s_.targets[0])]
-    site = f"{qn}: alpha/beta accumulation"
-    if len(inner) != 1 or not reset:
-        ctx.unrecognised("C08-g", site, "no `alpha, beta = 0, 0` followed by a loop over l_prime")
-    else:
-        ip = inner[0]
-        probs = []
-        if norm_src(reset[0].value) not in ("(0, 0)", "(0.0, 0.0)") or sc.body.index(reset[0]) > sc.body.index(ip):
-            probs.append("alpha and beta are not reset to 0 for each scanned sample")
-        if norm_src(ip.iter) != "range(n_leaf)":
-            probs.append(f"the inner loop runs over {norm_src(ip.iter)}, not over all samples of the leaf")
-        arms = {}
-        for n in ast.walk(ip):
-            if isinstance(n, ast.AugAssign) and isinstance(n.target, ast.Name) and n.target.id in ("alpha", "beta"):
-                conds = [c for c in _enclosing_tests(n, ip)]
-                arms[n.target.id] = (n, conds)
-        want = {"alpha": ("<", "sigma(x, samples before x)"), "beta": (">", "sigma(x, samples after x)")}
-        for v, (op, what) in want.items():
-            if v not in arms:
-                probs.append(f"{v} is never accumulated")
-                continue
-            n, conds = arms[v]
-            if not (isinstance(n.op, ast.Add) and norm_src(n.value) in (f"kernel[{x}, nu[l_prime]]", f"kernel[nu[l_prime], {x}]")):
-                probs.append(f"{v} accumulates {norm_src(n.value)}, not kernel[x, nu[l_prime]]")
-            try:
-                d_, o_ = compare_normal(conds[-1][0]) if conds else (None, None)
-                ref = compare_normal(ast.parse(f"l_prime {op} l_split", mode="eval").body)
-                pol = conds[-1][1] if conds else True
-                if not (conds and pol and o_ == ref[1] and d_.equals(ref[0])):
-                    probs.append(f"{v} is not restricted to l_prime {op} l_split ({what})")
-            except NotScalarArithmetic:
-                probs.append(f"{v}: unrecognised guard")
-        if probs:
-            ctx.violation("C08-g", unit.relpath, qn, norm_src(ip)[:160], "; ".join(probs), line=ip.lineno, site=site)
-        else:
-            ctx.ok("C08-g", site, "alpha = sigma(x, Sl), beta = sigma(x, Sr - x)")
-    # ---- square stocks
-    table = {"alpha": P(xl=1), "beta": P(xr=1), f"kernel[{x}, {x}]": P(xx=1)}
-    for var, ref, what in (("sl_square", P(xl=2, xx=1), "sigma((Sl+x)^2) - sigma(Sl^2) = 2 sigma(x,Sl) + sigma(x,x)"),
-                           ("sr_square", Rat(Poly.const(0)) - P(xr=2, xx=1), "sigma((Sr-x)^2) - sigma(Sr^2) = -2 sigma(x,Sr-x) - sigma(x,x)")):
-        ups = [s_ for s_ in sc.body if isinstance(s_, ast.AugAssign) and norm_src(s_.target) == var]
-        site = f"{qn}: update of {var}"
-        if len(ups) != 1:
-            if not ups:
-                ctx.unrecognised("C08-g", site, f"no top-level update of {var} in the scan")
-            else:
-                ctx.violation("C08-g", unit.relpath, qn, norm_src(ups[1]), f"{var} is updated {len(ups)} times per scanned sample", line=ups[1].lineno, site=site)
-            continue
-        u_ = ups[0]
-        try:
-            val = to_rat(u_.value)
-            inc = val if isinstance(u_.op, ast.Add) else (Rat(Poly.const(0)) - val if isinstance(u_.op, ast.Sub) else None)
-            inc2, unknown = substitute_stocks(inc, table) if inc is not None else (None, ["?"])
-        except NotScalarArithmetic:
-            inc2, unknown = None, ["non-arithmetic"]
-        if inc2 is None or unknown:
-            ctx.violation("C08-g", unit.relpath, qn, norm_src(u_), f"the update of {var} reads {unknown}: not a kernel stock of the scanned sample", line=u_.lineno, site=site)
-        elif inc2.equals(ref):
-            ctx.ok("C08-g", site, what)
-        else:
-            ctx.violation("C08-g", unit.relpath, qn, norm_src(u_), f"the update of {var} is {norm_src(u_)}; bilinearity requires {what}", line=u_.lineno, site=site)
-    # ---- cluster stocks
-    cl = [n for n in sc.body if isinstance(n, ast.For) and norm_src(n.iter) == "range(n_clusters)"]
-    site = f"{qn}: update of sl_clusters / sr_clusters"
-    if len(cl) != 1:
-        ctx.unrecognised("C08-g", site, "no loop over the clusters in the scan")
-    else:
-        a = norm_src(cl[0].target)
-        ups = {norm_src(s_.target): s_ for s_ in cl[0].body if isinstance(s_, ast.AugAssign)}
-        l_, r_ = ups.get(f"sl_clusters[{a}]"), ups.get(f"sr_clusters[{a}]")
-        okc = l_ is not None and r_ is not None and isinstance(l_.op, ast.Add) and isinstance(r_.op, ast.Sub) \
-            and norm_src(l_.value) == norm_src(r_.value) == f"omega[{a}, {x}]"
-        if okc:
-            ctx.ok("C08-g", site, "sigma(x, C_a) moves from the right stock to the left stock for every cluster")
-        else:
-            bad = l_ or r_ or cl[0]
-            ctx.violation("C08-g", unit.relpath, qn, norm_src(bad)[:160], "the cluster stocks are not moved by omega[a, x] from the right part to the left part", line=bad.lineno, site=site)
-    # ---- the updates precede every `continue` (a skipped candidate must still move the stocks)
-    skips = [s_ for s_ in sc.body if isinstance(s_, ast.If) and any(isinstance(n, ast.Continue) for n in ast.walk(s_))]
-    upd_stmts = [s_ for s_ in sc.body if (isinstance(s_, ast.AugAssign) and norm_src(s_.target) in ("sl_square", "sr_square")) or (isinstance(s_, ast.For) and norm_src(s_.iter) == "range(n_clusters)")]
-    site = f"{qn}: stocks updated before candidates are skipped"
-    if not skips or not upd_stmts:
-        ctx.unrecognised("C08-g", site, "no skip tests / no updates at the top level of the scan")
-    elif max(sc.body.index(u_) for u_ in upd_stmts) < min(sc.body.index(k_) for k_ in skips):
-        ctx.ok("C08-g", site)
-    else:
-        k_ = min(skips, key=lambda k__: sc.body.index(k__))
-        ctx.violation("C08-g", unit.relpath, qn, norm_src(k_.test), "a candidate can be skipped (`continue`) before the running stocks were moved past its sample: every later "
-                      "candidate is then evaluated with the stocks of another split", line=k_.lineno, site=site)
+    scan_invariant(ctx, unit, fb, sc, qn)
     # ---- initialisation before the scan: (empty, whole leaf)
     parent = sc._parent
     pre = parent.body[:parent.body.index(sc)] if sc in parent.body else []
@@ -932,6 +1140,13 @@ def controls(pm, tier):
     mut("                sl_square += 2 * alpha + kernel[nu[l_split], nu[l_split]]", "                sl_square += alpha + kernel[nu[l_split], nu[l_split]]", "C08-g", "left stock misses half of the cross term")
     mut("                    elif l_prime > l_split:", "                    elif l_prime >= l_split:", "C08-g", "beta includes the diagonal term")
     mut("                    sr_clusters[a] -= omega[a, nu[l_split]]", "                    sr_clusters[a] -= omega[a, nu[l_split + 1]]", "C08-g", "right cluster stock moved by the next sample")
+    mut("            for l_split in range(n_leaf -1):", "            for l_split in range(min_leaf - 1, n_leaf - 1):", "C08-g", "scan starts at the first admissible cut with empty left stocks")
+    mut("            for l_split in range(n_leaf -1):", "            for l_split in range(n_leaf - min_leaf - 1):", "C08-g", "scan stops one position before the last admissible cut")
+    mut("                sr_square -= 2 * beta + kernel[nu[l_split], nu[l_split]]",
+        "                beta = omega[k, nu[l_split]] - alpha - kernel[nu[l_split], nu[l_split]]\n                sr_square -= 2 * beta + kernel[nu[l_split], nu[l_split]]",
+        "C08-g", "beta derived from the cluster stock instead of the leaf stock")
+    mut("                if top_gain_left + second_gain_right > top_gain_right + second_gain_left:", "                if top_gain_left > top_gain_right:", "C08-d",
+        "reallocation pair chosen greedily on the top gains")
 
     def skip_first(pm_):
         u = pm_.unit(PYX)
